@@ -34,6 +34,16 @@ CHECKS = {
     technique="same TLA+ handshake model: tamper/truncate/splice moves and key-agreement/distinctness invariants checked by TLC; behaviours replayed on real endpoints with per-step observation of who consumed a changed datagram; honest runs expanded to concrete byte offsets, masks and truncation lengths",
     text="TLC checks that a role that consumed a changed datagram never completes, that completed peers agree on session id and keys, that directions and sessions never share keys (1 adversary move single-session, 2 moves with two concurrent sessions incl. splicing and replays: 170k states). Replay on real endpoints records for every step whether the receiving party had already finished, completed, answered or offered a connection, so a completion is attributed to the datagram that caused it. Honest discoverable and hidden runs are expanded to byte level: per message, field edges plus seeded offsets/masks/cut lengths (quick), every byte offset x {01,80,ff} and every truncation length (thorough), plus 'truncated copy after the receiver saw the full datagram'. Key equality is read from both SessionStates (verif build) and cross-checked black-box by a data probe.",
     note="Trusted: as C01. Datagram extension (extra trailing bytes) is not in the property text and not judged. XOR masks other than the listed ones are sampled, not enumerated."),
+ "C03": dict(
+    level="model_checking", ref="§3 C03",
+    technique="TLA+ model of the established channel (counters, replay filter, queues, close causes, datagram-level adversary) checked by TLC; TLC-simulated behaviours replayed step by step on a real client/server pair with state comparison after every step; write-size and concurrent-writer traces validated by TLC; wire scan for plaintext",
+    text="HopTransport.tla models both ends of a session with the code's order of receive checks; TLC checks authenticity, at-most-once, close-has-cause and 'a non-authentic or stale datagram changes nothing' (action property) exhaustively for 3 packets / 5-6 steps. 1200 (thorough 6000) simulated behaviours of up to 14 steps - deliveries of captured packets to either end from any address, unchanged, with one region flipped or truncated to any length, forged data/control packets with the live session id, authentic control packets made with the session keys, local closes - are replayed on a real pair (discoverable and hidden alternately); after every step queue lengths, closed flags and peer addresses are compared, at the end the messages read. Every Write size class around multiples of the maximum payload in both directions and 2/4 concurrent writers are recorded and judged by TLC (returned count, packets, bytes read, distinct counters). All datagrams of both handshake modes and the data phase are scanned for a payload marker, the server name and certificate bytes.",
+    note="Trusted: TLC, simwire, the verif-tag state view (read-only). Completeness is only judged on the faithful-network write traces and through the model's deterministic delivery rule; queue overflow (reader not keeping up) is modelled as a drop."),
+ "C15": dict(
+    level="model_checking", ref="§3 C15",
+    technique="same TLA+ channel model: action properties 'peer address changes only on an authentic fresh delivery, to its source' and 'a write goes to the current peer address' checked by TLC; behaviours replayed on a real pair with the peer address compared after every step and the destination of every written datagram observed on the wire",
+    text="TLC checks the two action properties exhaustively (4 addresses incl. a roamed client address and a third party). In the replay every delivery carries an explicit source address: genuine packets from moving addresses interleaved with bit-flipped, truncated, replayed, reflected and forged copies from other addresses, on both the client and the server end; after each step the address each end would send to is compared with the specification, and each real write's destination is read off the simulated wire.",
+    note="Trusted: as C03. IPv6 / zone handling of address equality is not modelled (IPv4 addresses only in the replay)."),
 }
 
 NOT_YET = {}
